@@ -278,7 +278,10 @@ pub fn build_log<E: RefExt>(
     for seq in 0..n as u32 {
         let body = match rng.below(5) {
             0 => None,
-            _ => Some(rng.bytes(1 + rng.usize_below(40))),
+            _ => {
+                let n = 1 + rng.usize_below(40);
+                Some(rng.bytes(n))
+            }
         };
         let op = build_op(
             sk,
